@@ -283,3 +283,67 @@ Theorem sha256_stream_correct : forall chunks, Z.of_nat (length (concat chunks))
   sha256_stream chunks = sha256 (concat chunks).
 Proof. exact Proofs.Sha256StreamProofs.sha256_stream_correct. Qed.
 Print Assumptions sha256_stream_correct.
+
+(* ---- 32-byte encodings of field elements and scalars (limb level): serialization of a normalized element, parsing and serialization of a scalar ---- *)
+Require Import Kernel.FieldGetB32 Kernel.ScalarB32 Gen.fe_impl_get_b32 Gen.scalar_set_b32 Gen.scalar_get_b32.
+
+Theorem fe_get_b32_correct : forall n0 n1 n2 n3 n4,
+  0 <= n0 < 2^52 -> 0 <= n1 < 2^52 -> 0 <= n2 < 2^52 -> 0 <= n3 < 2^52 -> 0 <= n4 < 2^48 ->
+  fe_impl_get_b32_k n0 n1 n2 n3 n4 (fun r0 r1 r2 r3 r4 r5 r6 r7 r8 r9 r10 r11 r12 r13 r14 r15 r16 r17 r18 r19 r20 r21 r22 r23 r24 r25 r26 r27 r28 r29 r30 r31 =>
+    Forall (fun b => 0 <= b < 256) [r0; r1; r2; r3; r4; r5; r6; r7; r8; r9; r10; r11; r12; r13; r14; r15; r16; r17; r18; r19; r20; r21; r22; r23; r24; r25; r26; r27; r28; r29; r30; r31] /\
+    be32 r0 r1 r2 r3 r4 r5 r6 r7 r8 r9 r10 r11 r12 r13 r14 r15 r16 r17 r18 r19 r20 r21 r22 r23 r24 r25 r26 r27 r28 r29 r30 r31 = val5 n0 n1 n2 n3 n4).
+Proof. exact Kernel.FieldGetB32.fe_get_b32_correct. Qed.
+Print Assumptions fe_get_b32_correct.
+
+Theorem scalar_set_b32_correct : forall a0 a1 a2 a3 a4 a5 a6 a7 a8 a9 a10 a11 a12 a13 a14 a15 a16 a17 a18 a19 a20 a21 a22 a23 a24 a25 a26 a27 a28 a29 a30 a31,
+  0 <= a0 < 256 -> 0 <= a1 < 256 -> 0 <= a2 < 256 -> 0 <= a3 < 256 -> 0 <= a4 < 256 -> 0 <= a5 < 256 -> 0 <= a6 < 256 -> 0 <= a7 < 256 -> 0 <= a8 < 256 -> 0 <= a9 < 256 -> 0 <= a10 < 256 -> 0 <= a11 < 256 -> 0 <= a12 < 256 -> 0 <= a13 < 256 -> 0 <= a14 < 256 -> 0 <= a15 < 256 -> 0 <= a16 < 256 -> 0 <= a17 < 256 -> 0 <= a18 < 256 -> 0 <= a19 < 256 -> 0 <= a20 < 256 -> 0 <= a21 < 256 -> 0 <= a22 < 256 -> 0 <= a23 < 256 -> 0 <= a24 < 256 -> 0 <= a25 < 256 -> 0 <= a26 < 256 -> 0 <= a27 < 256 -> 0 <= a28 < 256 -> 0 <= a29 < 256 -> 0 <= a30 < 256 -> 0 <= a31 < 256 ->
+  scalar_set_b32_k a0 a1 a2 a3 a4 a5 a6 a7 a8 a9 a10 a11 a12 a13 a14 a15 a16 a17 a18 a19 a20 a21 a22 a23 a24 a25 a26 a27 a28 a29 a30 a31 (fun r0 r1 r2 r3 over =>
+    (0 <= r0 < 2^64 /\ 0 <= r1 < 2^64 /\ 0 <= r2 < 2^64 /\ 0 <= r3 < 2^64) /\
+    val4 r0 r1 r2 r3 = be32 a0 a1 a2 a3 a4 a5 a6 a7 a8 a9 a10 a11 a12 a13 a14 a15 a16 a17 a18 a19 a20 a21 a22 a23 a24 a25 a26 a27 a28 a29 a30 a31 mod N256 /\
+    over = (if N256 <=? be32 a0 a1 a2 a3 a4 a5 a6 a7 a8 a9 a10 a11 a12 a13 a14 a15 a16 a17 a18 a19 a20 a21 a22 a23 a24 a25 a26 a27 a28 a29 a30 a31 then 1 else 0)).
+Proof. exact Kernel.ScalarB32.scalar_set_b32_correct. Qed.
+Print Assumptions scalar_set_b32_correct.
+
+Theorem scalar_get_b32_correct : forall d0 d1 d2 d3,
+  0 <= d0 < 2^64 -> 0 <= d1 < 2^64 -> 0 <= d2 < 2^64 -> 0 <= d3 < 2^64 ->
+  scalar_get_b32_k d0 d1 d2 d3 (fun r0 r1 r2 r3 r4 r5 r6 r7 r8 r9 r10 r11 r12 r13 r14 r15 r16 r17 r18 r19 r20 r21 r22 r23 r24 r25 r26 r27 r28 r29 r30 r31 =>
+    Forall (fun b => 0 <= b < 256) [r0; r1; r2; r3; r4; r5; r6; r7; r8; r9; r10; r11; r12; r13; r14; r15; r16; r17; r18; r19; r20; r21; r22; r23; r24; r25; r26; r27; r28; r29; r30; r31] /\
+    be32 r0 r1 r2 r3 r4 r5 r6 r7 r8 r9 r10 r11 r12 r13 r14 r15 r16 r17 r18 r19 r20 r21 r22 r23 r24 r25 r26 r27 r28 r29 r30 r31 = val4 d0 d1 d2 d3).
+Proof. exact Kernel.ScalarB32.scalar_get_b32_correct. Qed.
+Print Assumptions scalar_get_b32_correct.
+
+(* ---- scalar equality, conditional move on ints, parity of a field element ---- *)
+Require Import Kernel.SmallPrims Gen.scalar_eq Gen.int_cmov Gen.fe_impl_is_odd.
+
+Theorem scalar_eq_correct : forall a0 a1 a2 a3 b0 b1 b2 b3,
+  0 <= a0 -> 0 <= a1 -> 0 <= a2 -> 0 <= a3 -> 0 <= b0 -> 0 <= b1 -> 0 <= b2 -> 0 <= b3 ->
+  scalar_eq a0 a1 a2 a3 b0 b1 b2 b3 = if (a0 =? b0) && (a1 =? b1) && (a2 =? b2) && (a3 =? b3) then 1 else 0.
+Proof. exact Kernel.SmallPrims.scalar_eq_correct. Qed.
+Print Assumptions scalar_eq_correct.
+
+Theorem int_cmov_correct : forall r a flag,
+  - 2^31 <= r < 2^31 -> - 2^31 <= a < 2^31 -> (flag = 0 \/ flag = 1) ->
+  int_cmov r a flag = [if flag =? 1 then a else r].
+Proof. exact Kernel.SmallPrims.int_cmov_correct. Qed.
+Print Assumptions int_cmov_correct.
+
+Theorem fe_is_odd_correct : forall n0 n1 n2 n3 n4,
+  0 <= n0 -> fe_impl_is_odd n0 = val5 n0 n1 n2 n3 n4 mod 2.
+Proof. exact Kernel.SmallPrims.fe_is_odd_correct. Qed.
+Print Assumptions fe_is_odd_correct.
+
+(* ---- group law over the limb code: point doubling, with the field operations as calls to the proved limb functions ---- *)
+Require Import Kernel.Cong Kernel.GejDouble Gen.gej_double.
+
+Theorem gej_double_correct : forall inf x0 x1 x2 x3 x4 y0 y1 y2 y3 y4 z0 z1 z2 z3 z4,
+  lim 8 x0 x1 x2 x3 x4 -> lim 8 y0 y1 y2 y3 y4 -> lim 8 z0 z1 z2 z3 z4 ->
+  gej_double_k inf x0 x1 x2 x3 x4 y0 y1 y2 y3 y4 z0 z1 z2 z3 z4
+    (fun rinf rx0 rx1 rx2 rx3 rx4 ry0 ry1 ry2 ry3 ry4 rz0 rz1 rz2 rz3 rz4 =>
+      let X := val5 x0 x1 x2 x3 x4 in let Y := val5 y0 y1 y2 y3 y4 in let Z := val5 z0 z1 z2 z3 z4 in
+      rinf = inf /\
+      (lim 3 rx0 rx1 rx2 rx3 rx4 /\ mag 3 ry0 ry1 ry2 ry3 ry4 /\ lim 1 rz0 rz1 rz2 rz3 rz4) /\
+      cong (val5 rz0 rz1 rz2 rz3 rz4) (Y * Z) /\
+      cong (4 * val5 rx0 rx1 rx2 rx3 rx4) (9 * (X * X * X * X) - 8 * (X * (Y * Y))) /\
+      cong (8 * val5 ry0 ry1 ry2 ry3 ry4) (- 27 * (X * X * X * X * X * X) + 36 * (X * X * X * (Y * Y)) - 8 * (Y * Y * Y * Y))).
+Proof. exact Kernel.GejDouble.gej_double_correct. Qed.
+Print Assumptions gej_double_correct.
